@@ -595,6 +595,7 @@ func (c *vCase) start(gsErr bool) bool {
 }
 
 func (c *vCase) stop() {
+	c.g.w.Flush() // a crash of the process under test must not lose the cases written so far
 	c.cancel()
 	c.srv.CloseClientConnections()
 	c.srv.Close()
